@@ -115,6 +115,61 @@ func TestC16(t *testing.T) {
 		c.Count("late_skip_link_cases", 1)
 		runCase(c, tr, steps, "late-skip-links")
 	})
+	// crafted: the main chain is on branch A; every block of branch B but the first waits as an orphan, the
+	// headers of B's checkpoint blocks carry a supermajority of votes (root -> bE, bE -> b2E).  When b1 arrives
+	// the whole branch connects at once and its headers finalize bE: the main chain must move to B with it.
+	r.Cases("orphans-that-finalize", r.N(16, 800), func(c *ev.Case) {
+		rng := c.Rand
+		tr := net.NewTree(g)
+		E := int(net.P.Epoch)
+		build := func(p *chainkit.Blk, n, skip int) []*chainkit.Blk {
+			var l []*chainkit.Blk
+			for i := 0; i < n; i++ {
+				bo := chainkit.BlockOpt{}
+				if i == 0 {
+					bo.SkipSlots = skip
+				}
+				b, err := tr.Build(p, []*types.Tx{}, bo)
+				if err != nil {
+					c.Violation("harness:build", "cannot build", err.Error())
+					return nil
+				}
+				l = append(l, b)
+				p = b
+			}
+			return l
+		}
+		A := build(tr.Root, rng.Range(2, E+2), 0)
+		B := build(tr.Root, 2*E+rng.Intn(2), 1)
+		if A == nil || B == nil {
+			return
+		}
+		link := func(src, tgt *chainkit.Blk) types.SupLinks {
+			l := &types.SupLink{SourceHeight: src.Height, SourceHash: src.Hash}
+			for order, k := range tr.ValidatorsOf(tgt) {
+				if k != local && k != 0 { // three of the four validators (never the node's own key)
+					l.Signatures[order] = net.SignVote(net.Prv[k], src.Hash, tgt.Hash)
+				}
+			}
+			return types.SupLinks{l}
+		}
+		bE, b2E := B[E-1], B[2*E-1]
+		hdr := map[bc.Hash]types.SupLinks{bE.Hash: link(tr.Root, bE), b2E.Hash: link(bE, b2E)}
+		var steps []chainkit.Step
+		for _, b := range A {
+			steps = append(steps, chainkit.Step{Blk: b})
+		}
+		rest := append([]*chainkit.Blk{}, B[1:]...)
+		if rng.Bool() {
+			rng.Shuffle(len(rest), func(i, j int) { rest[i], rest[j] = rest[j], rest[i] })
+		}
+		for _, b := range rest {
+			steps = append(steps, chainkit.Step{Blk: b})
+		}
+		steps = append(steps, chainkit.Step{Blk: B[0]})
+		c.Count("orphans_that_finalize_cases", 1)
+		runCase(c, tr, origRunWithHeaders(steps, hdr), "orphans-that-finalize")
+	})
 	r.Cases("schedules", r.N(48, 4800), func(c *ev.Case) {
 		tr := genTree(c, net, g, 18, 42)
 		if tr == nil {
@@ -129,6 +184,7 @@ func TestC16(t *testing.T) {
 	r.Floor("byzantine_votes_sent", 50)
 	r.Floor("restarts", 10)
 	r.Floor("late_skip_link_cases", 8)
+	r.Floor("orphans_that_finalize_cases", 8)
 }
 
 // runC16 drives one schedule and checks the finality invariants after every step.
